@@ -247,6 +247,13 @@ def run(tier: str) -> int:
             r_ = truns[tid]
             rep.mismatch({'clause': clause}, {'src': tprogs[r_['pid'] - 1]['src'], 'args': r_['args'], 'ctx': r_['ctx'], 'clause': clause,
                                               'where': what, 'observed_by': 'statement trace of the real interpreter (sys.settrace)'})
+    if truns:
+        st = linetrace.tamper_selftest(truns, tprogs)
+        if st is not None:
+            clauses, typed = st
+            if 'active-context-is-not-that-of-the-enclosing-scope' not in clauses or (typed and 'value-does-not-have-the-inferred-type' not in clauses):
+                raise core.MachineryError(f'spec/StmtTrace.tla accepted a tampered trace (reported only {clauses})')
+            rep.cov['tampered_traces_rejected'] = clauses
     rep.cov['statement_traces'] = len(truns)
     rep.cov['statement_trace_events'] = sum(len(r_['ev']) for r_ in truns)
     rep.cov['with_blocks_entered_on_traces'] = sum(1 for r_ in truns for a, b in zip(r_['ev'], r_['ev'][1:])
